@@ -69,6 +69,7 @@ FORMULAS = {
     "m9": [R, m3, P5, m7, n9],
     "7#11": [R, M3, P5, m7, s11],
     "m11": [R, m3, P5, m7, n11],
+    "M11": [R, M3, P5, M7, n9, n11],
     "M13": [R, M3, P5, M7, n9, n13],
     "m13": [R, m3, P5, m7, n9, n13],
     "13": [R, M3, P5, m7, n9, n13],
@@ -88,7 +89,7 @@ MEANINGS = {
     "m7b5": "half diminished seventh", "dim7": "diminished seventh", "m/M7": "minor/major seventh", "mM7": "minor/major seventh",
     "m6": "minor sixth", "M6": "major sixth", "6": "major sixth", "6/7": "dominant sixth", "67": "dominant sixth", "6/9": "sixth ninth",
     "69": "sixth ninth", "9": "dominant ninth", "add9": "dominant ninth", "7b9": "dominant flat ninth", "7#9": "dominant sharp ninth",
-    "M9": "major ninth", "m9": "minor ninth", "7#11": "lydian dominant seventh", "m11": "minor eleventh", "M13": "major thirteenth",
+    "M9": "major ninth", "m9": "minor ninth", "7#11": "lydian dominant seventh", "m11": "minor eleventh", "M11": "major eleventh", "M13": "major thirteenth",
     "m13": "minor thirteenth", "13": "dominant thirteenth", "add13": "dominant thirteenth", "7b5": "dominant flat five",
     "hendrix": "hendrix chord", "7b12": "hendrix chord", "5": "perfect fifth",
 }
